@@ -677,6 +677,9 @@ func (m *clusterImpl) Do(line string) string {
 			defer cancel()
 			hl, err := db.AcquireRemoteHaltLock(ctx, id)
 			if err != nil {
+				if os.Getenv("VERIF_LOG") != "" {
+					fmt.Fprintln(os.Stderr, "halt-bg error:", err)
+				}
 				if errors.Is(err, litefs.ErrNoHaltPrimary) {
 					ch <- "err primary"
 				} else {
